@@ -18,7 +18,7 @@ pub const CHILD_WALL_CAP_MS: i32 = 20_000;
 pub fn step_bound(sc: &Scenario) -> usize {
     match sc.engine {
         Engine::Pool => 60_000,
-        _ => 2_000_000 + 4_000 * sc.conns.len(),
+        _ => 600_000 + 4_000 * sc.conns.len(),
     }
 }
 
